@@ -24,7 +24,7 @@ fn dyn_scn(d: Dyn, q: Option<u32>, t: Option<u32>) -> Scn {
   let name = format!("c06/{:?}: the event that makes it subscribe a further source || unsubscribe", d);
   scn(&name, "teardown-vs-late-subscription", q, t, move || {
     let rec = Rec::new();
-    let state: Arc<Mutex<(Vec<bool>, usize)>> = Arc::new(Mutex::new((vec![], 0)));
+    let state: Arc<Mutex<(Vec<bool>, usize, Vec<bool>)>> = Arc::new(Mutex::new((vec![], 0, vec![])));
     let (rec2, st2) = (rec.clone(), state.clone());
     let body: Body = Box::new(move || {
       let (a, b) = (Hot::<i64>::new(), Hot::<i64>::new());
@@ -51,6 +51,8 @@ fn dyn_scn(d: Dyn, q: Option<u32>, t: Option<u32>) -> Scn {
       // let every worker run out (virtual time only advances when nothing else can run)
       thread::sleep(ms(5));
       let before = rec2.events().len();
+      // what a source would read before its next emission
+      st2.lock().unwrap().2 = vec![a.any_subscribed(), b.any_subscribed()];
       // every source tries once more: nothing may be delivered, and afterwards
       // nobody may still be subscribed
       a.next(8);
@@ -69,6 +71,12 @@ fn dyn_scn(d: Dyn, q: Option<u32>, t: Option<u32>) -> Scn {
           format!("after unsubscribe returned and every source tried to emit once more, still subscribed: source={} further-source={} ; saw {}", s.0.first().cloned().unwrap_or(false), s.0.get(1).cloned().unwrap_or(false), rec.short()),
         ));
       }
+      if s.2.iter().any(|x| *x) {
+        v.push(viol(
+          "source-reads-subscribed-before-its-next-emission",
+          format!("after unsubscribe returned and all threads came to rest: is_subscribed() of source={} further-source={} (an emission now would still be attempted) ; saw {}", s.2.first().cloned().unwrap_or(false), s.2.get(1).cloned().unwrap_or(false), rec.short()),
+        ));
+      }
       if s.1 > 0 {
         v.push(viol("delivered-after-unsubscribe", format!("{} event(s) delivered by emissions made after unsubscribe returned; saw {}", s.1, rec.short())));
       }
@@ -76,6 +84,102 @@ fn dyn_scn(d: Dyn, q: Option<u32>, t: Option<u32>) -> Scn {
     });
     (body, check)
   })
+}
+
+/// C17 (cross-thread clause): the same races, but every source stays silent afterwards and all
+/// handles are dropped - the closure of the late-subscribed pipeline must have been released
+fn release_scn(d: Dyn, q: Option<u32>, t: Option<u32>) -> Scn {
+  let name = format!("c17/{:?}: the event that makes it subscribe a further source || unsubscribe, then silence", d);
+  scn(&name, "release-vs-late-subscription", q, t, move || {
+    let rec = Rec::new();
+    let owners: Arc<Mutex<Vec<(String, usize)>>> = Arc::new(Mutex::new(vec![]));
+    let (rec2, ow2) = (rec.clone(), owners.clone());
+    let body: Body = Box::new(move || {
+      let tok_first = Arc::new(());
+      let tok_further = Arc::new(());
+      let tok_sub = Arc::new(());
+      {
+        let (a, b) = (Hot::<i64>::new(), Hot::<i64>::new());
+        let (t1, t2) = (tok_first.clone(), tok_further.clone());
+        let first = a.observable().map(move |x| {
+          let _ = &t1;
+          x
+        });
+        let further = {
+          let b = b.clone();
+          move || {
+            let t2 = t2.clone();
+            b.observable().map(move |x| {
+              let _ = &t2;
+              x
+            })
+          }
+        };
+        let f2 = further.clone();
+        let o: Observable<'static, i64> = match d {
+          Dyn::FlatMap => first.flat_map(move |_| f2()),
+          Dyn::Concat => first.concat(&[further()]),
+          Dyn::Retry => first.retry(3),
+          Dyn::OnErrorResumeNext => first.on_error_resume_next(move |_| f2()),
+          Dyn::SubscribeOn => first.subscribe_on(schedulers::new_thread_scheduler()),
+          Dyn::SwitchOnNext => first.switch_on_next(further()),
+          Dyn::MergeTake => first.merge(&[further()]).take(1),
+        };
+        drop(further);
+        let ts = tok_sub.clone();
+        let r3 = rec2.clone();
+        let sub = o.subscribe(
+          move |x| {
+            let _ = &ts;
+            r3.cb(EvK::Next(x))
+          },
+          |_| {},
+          || {},
+        );
+        drop(o);
+        let a1 = a.clone();
+        let h = thread::spawn(move || match d {
+          Dyn::FlatMap | Dyn::SwitchOnNext | Dyn::MergeTake => a1.next(0),
+          Dyn::Concat => a1.complete(),
+          Dyn::Retry | Dyn::OnErrorResumeNext => a1.error(err(7)),
+          Dyn::SubscribeOn => {}
+        });
+        sub.unsubscribe();
+        let _ = h.join();
+        thread::sleep(ms(5));
+        drop(sub);
+        // a, b (and the observers they were handed) go out of scope here: nobody emits any more
+      }
+      thread::sleep(ms(5));
+      let mut o = ow2.lock().unwrap();
+      for (n, t) in [("closure of the first pipeline", &tok_first), ("closure of the further pipeline", &tok_further), ("subscriber callback", &tok_sub)] {
+        if Arc::strong_count(t) > 1 {
+          o.push((n.to_string(), Arc::strong_count(t) - 1));
+        }
+      }
+    });
+    let check: Check = Box::new(move |e: &ExecEnd| {
+      let mut v = base_violations(e, &[]);
+      let o = owners.lock().unwrap();
+      if !o.is_empty() {
+        v.push(viol("still-owned-after-the-end", format!("after unsubscribe returned, all threads came to rest and every handle was dropped these still have owners: {:?}", *o)));
+      }
+      Verdict { outcome: format!("{} | owners {:?} | {}", rec.short(), *o, thread_summary(e)), violations: v }
+    });
+    (body, check)
+  })
+}
+
+pub fn release_scenarios() -> Vec<Scn> {
+  vec![
+    release_scn(Dyn::FlatMap, Some(2), Some(4)),
+    release_scn(Dyn::Concat, Some(2), Some(4)),
+    release_scn(Dyn::Retry, Some(2), Some(4)),
+    release_scn(Dyn::OnErrorResumeNext, Some(2), Some(4)),
+    release_scn(Dyn::SubscribeOn, Some(2), Some(3)),
+    release_scn(Dyn::SwitchOnNext, Some(2), Some(3)),
+    release_scn(Dyn::MergeTake, Some(2), Some(3)),
+  ]
 }
 
 pub fn scenarios() -> Vec<Scn> {
